@@ -11,6 +11,7 @@ targets and event histories (any interleaving of start / post-commit operations 
 executor runs with any results).
 -/
 import Mistral.Lemmas.ReverseLive
+import Mistral.Lemmas.ReverseValid
 namespace Mistral.Props.C04Rev
 open Mistral Mistral.Reverse
 
@@ -105,14 +106,13 @@ example : hasRow (run diamond (evsA.take 5)).tasks "b" = false ∧
 
 /-! ### the outcome of a run (C01 for reverse workflows; "each once" read as "each exactly once") -/
 
-/-- what ReverseWorkflowSpec validation guarantees: every required name is a task
-    (`_check_workflow_integrity` → `_validate_task_link`).  It does NOT check for cycles. -/
+/-- every required name is a task (`_check_workflow_integrity` → `_validate_task_link`) -/
 def WellFormed (sp : Spec) : Prop := ∀ t ∈ sp.tasks, ∀ q ∈ requiresOf sp t, isTask sp q = true
 
 instance (sp : Spec) : Decidable (WellFormed sp) := by unfold WellFormed; infer_instance
 
-/-- `requires` has no cycle: some ranking of the names puts every requirement below its task.
-    NOT guaranteed by the validator. -/
+/-- `requires` has no cycle: some ranking of the names puts every requirement below its task
+    (guaranteed by the validator since `_check_requires_cycles`: `accepted_wellformed_acyclic`) -/
 def Acyclic (sp : Spec) : Prop :=
   ∃ rank : String → Nat, ∀ t ∈ sp.tasks, ∀ q ∈ requiresOf sp t, rank q < rank t.name
 
@@ -136,20 +136,17 @@ example : Acyclic diamond := acyclic_of_order ["a", "b", "c", "d", "e", "u"] dia
     a RUNNING workflow whose rows are all finished has a completion check pending; a finished workflow
     has only finished rows (SUCCESS: all SUCCESS, ERROR: one ERROR); once started, no needed task is
     startable and not started. -/
-theorem live_inv_reachable (sp : Spec) (evs : List Event) :
-    Static sp (run sp evs) ∧ Pend (run sp evs) := ⟨(live_reachable sp evs).1, (live_reachable sp evs).2.1⟩
+theorem live_inv_reachable (sp : Spec) (evs : List Event) (hops : ∀ e ∈ evs, NoOp e) :
+    Static sp (run sp evs) ∧ Pend (run sp evs) := ⟨(live_reachable sp evs hops).1, (live_reachable sp evs hops).2.1⟩
 
-/-- "Every workflow run finishes with the outcome its definition prescribes", reverse workflows whose
-    `requires` is acyclic: for EVERY event history, if nothing is pending any more (and the run was
-    started) then either the workflow is ERROR and some task failed, or it is SUCCESS and EVERY needed
-    task (the target included) has a row in SUCCESS — by `each_once_reachable` exactly one.  It is
-    never left RUNNING. -/
-theorem quiescent_outcome_partial (sp : Spec) (evs : List Event) (hwf : WellFormed sp) (hac : Acyclic sp)
+/-- the outcome under the two facts about `requires` (by name) it needs -/
+theorem quiescent_outcome_core (sp : Spec) (evs : List Event) (hops : ∀ e ∈ evs, NoOp e)
+    (hwf : WellFormedN sp) (hac : AcyclicN sp)
     (hq : (run sp evs).pending = []) (hst : (run sp evs).wf ≠ .IDLE) :
     ((run sp evs).wf = .ERROR ∧ ∃ r ∈ (run sp evs).tasks, r.state = .ERROR) ∨
     ((run sp evs).wf = .SUCCESS ∧ ∃ nd, needed sp = some nd ∧
       ∀ n ∈ nd, ∃ r ∈ (run sp evs).tasks, r.name = n ∧ r.state = .SUCCESS) := by
-  rcases live_reachable sp evs with ⟨hs, hp, _⟩
+  rcases live_reachable sp evs hops with ⟨hs, hp, _⟩
   rcases quiescent_finished sp _ hs hp hq with ⟨_, hnr⟩
   rcases hs.wfStates with h | h | h | h
   · exact absurd h hst
@@ -159,37 +156,81 @@ theorem quiescent_outcome_partial (sp : Spec) (evs : List Event) (hwf : WellForm
     rcases hs.sat hst with ⟨nd, hnd, hsat⟩
     refine ⟨nd, hnd, ?_⟩
     rcases hac with ⟨rank, hrank⟩
-    have hreq : ∀ n q, q ∈ reqsN sp n → ∃ t ∈ sp.tasks, t.name = n ∧ q ∈ requiresOf sp t := by
-      intro n q hq
-      unfold reqsN at hq
-      split at hq
-      · rename_i t ht
-        exact ⟨t, (findTaskSpec_some sp n t ht).1, (findTaskSpec_some sp n t ht).2, hq⟩
-      · simp at hq
     intro n hn
-    have := all_needed_succeeded sp _ nd rank hnd
-      (by intro n q hq; rcases hreq n q hq with ⟨t, ht, hname, hq'⟩; rw [← hname]; exact hrank t ht q hq')
-      (by intro n q hq; rcases hreq n q hq with ⟨t, ht, _, hq'⟩; exact hwf t ht q hq')
-      hsat (hs.success h) (rank n + 1) n (Nat.lt_succ_self _) hn
+    have := all_needed_succeeded sp _ nd rank hnd hrank hwf hsat (hs.success h) (rank n + 1) n
+      (Nat.lt_succ_self _) hn
     exact (hasSuccess_iff _ _).mp this
   · exact Or.inl ⟨h, hs.error h⟩
 
-/-- the same for the histories that matter: anything after the start of a run on an existing target -/
-theorem started_run_outcome (sp : Spec) (evs : List Event) (hwf : WellFormed sp) (hac : Acyclic sp)
+theorem byName_of_tasks (sp : Spec) (hwf : WellFormed sp) (hac : Acyclic sp) : WellFormedN sp ∧ AcyclicN sp := by
+  have hreq : ∀ n q, q ∈ reqsN sp n → ∃ t ∈ sp.tasks, t.name = n ∧ q ∈ requiresOf sp t := by
+    intro n q hq
+    unfold reqsN at hq
+    split at hq
+    · rename_i t ht
+      exact ⟨t, (findTaskSpec_some sp n t ht).1, (findTaskSpec_some sp n t ht).2, hq⟩
+    · simp at hq
+  rcases hac with ⟨rank, hrank⟩
+  refine ⟨?_, rank, ?_⟩
+  · intro n q hq; rcases hreq n q hq with ⟨t, ht, _, hq'⟩; exact hwf t ht q hq'
+  · intro n q hq; rcases hreq n q hq with ⟨t, ht, hname, hq'⟩; rw [← hname]; exact hrank t ht q hq'
+
+/-- the outcome for any specification whose `requires` is acyclic (whether or not it was validated) -/
+theorem quiescent_outcome_acyclic (sp : Spec) (evs : List Event) (hops : ∀ e ∈ evs, NoOp e)
+    (hwf : WellFormed sp) (hac : Acyclic sp)
+    (hq : (run sp evs).pending = []) (hst : (run sp evs).wf ≠ .IDLE) :
+    ((run sp evs).wf = .ERROR ∧ ∃ r ∈ (run sp evs).tasks, r.state = .ERROR) ∨
+    ((run sp evs).wf = .SUCCESS ∧ ∃ nd, needed sp = some nd ∧
+      ∀ n ∈ nd, ∃ r ∈ (run sp evs).tasks, r.name = n ∧ r.state = .SUCCESS) :=
+  quiescent_outcome_core sp evs hops (byName_of_tasks sp hwf hac).1 (byName_of_tasks sp hwf hac).2 hq hst
+
+/-- what definition-time validation of a reverse workflow (`_check_workflow_integrity` with
+    `_check_requires_cycles`) guarantees: every required task exists and `requires` has no cycle -/
+theorem accepted_wellformed_acyclic (sp : Spec) (h : checkIntegrity sp = none) : WellFormedN sp ∧ AcyclicN sp :=
+  checkIntegrity_sound sp h
+
+/-- the number of rounds given to the model of the validator's loop is never what rejects -/
+theorem validator_rounds_suffice (sp : Spec) (g : Nat) (hg : sp.tasks.length ≤ g) :
+    peel sp g (sp.tasks.map (·.name)) [] = requiresAcyclic sp :=
+  peel_fuel sp sp.tasks.length _ [] (by simp) g hg
+
+/-- "Every workflow run finishes with the outcome its definition prescribes", reverse workflows, FULL
+    STRENGTH: for EVERY definition the validator accepts, every target and EVERY event history without
+    operator commands (a stopped run ends as it is told to, a run left paused does not end), if
+    nothing is pending any more (and the run was started) then either the workflow is ERROR and some
+    task failed, or it is SUCCESS and EVERY needed task (the target included) has a row in SUCCESS —
+    by `each_once_reachable` exactly one.  It is never left RUNNING. -/
+theorem quiescent_outcome (sp : Spec) (evs : List Event) (hops : ∀ e ∈ evs, NoOp e)
+    (hv : checkIntegrity sp = none)
+    (hq : (run sp evs).pending = []) (hst : (run sp evs).wf ≠ .IDLE) :
+    ((run sp evs).wf = .ERROR ∧ ∃ r ∈ (run sp evs).tasks, r.state = .ERROR) ∨
+    ((run sp evs).wf = .SUCCESS ∧ ∃ nd, needed sp = some nd ∧
+      ∀ n ∈ nd, ∃ r ∈ (run sp evs).tasks, r.name = n ∧ r.state = .SUCCESS) :=
+  quiescent_outcome_core sp evs hops (checkIntegrity_sound sp hv).1 (checkIntegrity_sound sp hv).2 hq hst
+
+/-- the same for the histories that matter: anything after the start of a run of an accepted
+    definition on an existing target -/
+theorem started_run_outcome (sp : Spec) (evs : List Event) (hops : ∀ e ∈ evs, NoOp e)
+    (hv : checkIntegrity sp = none)
     (ht : isTask sp sp.target = true) (hq : (run sp (.start :: evs)).pending = []) :
     ((run sp (.start :: evs)).wf = .ERROR ∧ ∃ r ∈ (run sp (.start :: evs)).tasks, r.state = .ERROR) ∨
     ((run sp (.start :: evs)).wf = .SUCCESS ∧
       ∃ r ∈ (run sp (.start :: evs)).tasks, r.name = sp.target ∧ r.state = .SUCCESS) := by
-  rcases quiescent_outcome_partial sp (.start :: evs) hwf hac hq (started_after_start sp evs ht) with h | ⟨h1, nd, hnd, h2⟩
+  rcases quiescent_outcome sp (.start :: evs)
+      (by intro e he; rcases List.mem_cons.mp he with rfl | he
+          · trivial
+          · exact hops e he) hv hq (started_after_start sp evs ht) with h | ⟨h1, nd, hnd, h2⟩
   · exact Or.inl h
   · exact Or.inr ⟨h1, h2 sp.target (target_mem_needed sp nd hnd)⟩
 
+example : checkIntegrity diamond = none := by decide
+
 /-- SUCCESS and ERROR are told apart by the tasks: at quiescence the workflow is ERROR exactly when
     some task failed (no acyclicity needed). -/
-theorem quiescent_error_iff (sp : Spec) (evs : List Event) (hq : (run sp evs).pending = [])
+theorem quiescent_error_iff (sp : Spec) (evs : List Event) (hops : ∀ e ∈ evs, NoOp e) (hq : (run sp evs).pending = [])
     (hst : (run sp evs).wf ≠ .IDLE) :
     (run sp evs).wf = .ERROR ↔ ∃ r ∈ (run sp evs).tasks, r.state = .ERROR := by
-  rcases live_reachable sp evs with ⟨hs, hp, _⟩
+  rcases live_reachable sp evs hops with ⟨hs, hp, _⟩
   rcases quiescent_finished sp _ hs hp hq with ⟨_, hnr⟩
   constructor
   · exact hs.error
@@ -200,28 +241,27 @@ theorem quiescent_error_iff (sp : Spec) (evs : List Event) (hq : (run sp evs).pe
     · have := hs.success h r hr; rw [he] at this; cases this
     · exact h
 
-/-- a workflow whose two tasks require each other: accepted by the validator -/
+/-- a workflow whose two tasks require each other -/
 def cyc : Spec := { tasks := [⟨"a", ["b"]⟩, ⟨"b", ["a"]⟩], defaultRequires := [], target := "a" }
 
-/-- FINDING (replayed on the real engine, corpus/C04/reverse-cyclic.json): with a `requires` cycle
-    nothing is startable, `start_workflow`'s inline completion check finds no unfinished task and the
-    run is SUCCESS at once — the target never ran. -/
-theorem cyclic_requires_succeeds_without_target :
+/-- a cycle through `task-defaults: requires`: every task requires a, a requires b -/
+def cycDefaults : Spec := { tasks := [⟨"a", ["b"]⟩, ⟨"b", []⟩], defaultRequires := ["a"], target := "b" }
+
+/-- REGRESSION (was the finding `quiescent_outcome_full_fails`; corpus/C04/reverse-cyclic.json): a
+    definition with a `requires` cycle — also one through task-defaults — is rejected at creation;
+    a task that only names itself, and an unknown name, are told apart. -/
+theorem cyclic_definition_rejected :
+    checkIntegrity cyc = some .requiresCycle ∧ checkIntegrity cycDefaults = some .requiresCycle ∧
+    checkIntegrity { tasks := [⟨"a", ["a"]⟩], defaultRequires := [], target := "a" } = none ∧
+    checkIntegrity { tasks := [⟨"a", ["zz"]⟩], defaultRequires := [], target := "a" } = some .taskNotFound := by
+  decide
+
+/-- why the validator must reject it: were such a definition run (one stored before the check
+    existed, or loaded without validation), nothing is startable, `start_workflow`'s inline completion
+    check finds no unfinished task and the run is SUCCESS at once — the target never ran. -/
+theorem unvalidated_cycle_succeeds_without_target :
     WellFormed cyc ∧ (run cyc [.start]).pending = [] ∧ (run cyc [.start]).wf = .SUCCESS ∧
     (run cyc [.start]).tasks.length = 0 := by decide
-
-/-- hence the outcome statement without the acyclicity hypothesis is FALSE of the code -/
-theorem quiescent_outcome_full_fails :
-    ¬ (∀ (sp : Spec) (evs : List Event), WellFormed sp → (run sp evs).pending = [] → (run sp evs).wf ≠ .IDLE →
-        ((run sp evs).wf = .ERROR ∧ ∃ r ∈ (run sp evs).tasks, r.state = .ERROR) ∨
-        ((run sp evs).wf = .SUCCESS ∧ ∃ nd, needed sp = some nd ∧
-          ∀ n ∈ nd, ∃ r ∈ (run sp evs).tasks, r.name = n ∧ r.state = .SUCCESS)) := by
-  intro h
-  rcases h cyc [.start] (by decide) (by decide) (by decide) with h1 | ⟨_, nd, hnd, h2⟩
-  · exact absurd h1.1 (by decide)
-  · rcases h2 "a" (target_mem_needed cyc nd hnd) with ⟨r, hr, _⟩
-    have : (run cyc [.start]).tasks = [] := List.eq_nil_of_length_eq_zero (by decide)
-    rw [this] at hr; simp at hr
 
 /-- full runs of the diamond (non-vacuity of the outcome theorem): all succeed → SUCCESS with a, b, c, d
     in SUCCESS and no row for e, u; b fails → ERROR and d never gets a row -/
@@ -238,5 +278,28 @@ example : let w := run diamond (.start :: runTask "a" true ++ runTask "c" true +
     w.pending = [] ∧ w.wf = .ERROR ∧
     w.tasks.map (fun r => (r.name, r.state)) = [("a", .SUCCESS), ("b", .ERROR), ("c", .SUCCESS)] := by
   decide
+
+/-! ### operator commands: pause / resume / stop are events of the model; the invariant `Inv`
+    (requires-order, only needed, each once) holds over histories that contain them (`inv_reachable`
+    quantifies over ALL event lists) -/
+
+-- a completes while the workflow is PAUSED: nothing is created; resume creates b and c
+example : let w := run diamond (.start :: (runTask "a" true).take 4 ++ [.pause, .deliver (.rpcResult "a" true)])
+    w.wf = .PAUSED ∧ w.pending = [] ∧ w.tasks.map (fun r => (r.name, r.state, r.processed)) = [("a", .SUCCESS, false)] := by
+  decide
+
+example : let w := run diamond (.start :: (runTask "a" true).take 4 ++ [.pause, .deliver (.rpcResult "a" true), .resume])
+    w.wf = .RUNNING ∧ w.pending = [.postStartTask "b", .postStartTask "c"] ∧
+    w.tasks.map (fun r => (r.name, r.state, r.processed)) = [("a", .SUCCESS, true), ("b", .IDLE, false), ("c", .IDLE, false)] := by
+  decide
+
+-- resume while a is still IDLE: a second start request (RunExistingTask) for the same row, no second row
+example : let w := run diamond [.start, .pause, .resume]
+    w.pending = [.postStartTask "a", .postStartExisting "a"] ∧ w.tasks.map (·.name) = ["a"] := by decide
+
+-- a stopped run: the rows that were started finish, nothing new is created
+example : let w := run diamond (.start :: (runTask "a" true).take 4 ++ [.stop .CANCELLED, .deliver (.rpcResult "a" true),
+      .deliver .postCheck])
+    w.wf = .CANCELLED ∧ w.pending = [] ∧ w.tasks.map (fun r => (r.name, r.state)) = [("a", .SUCCESS)] := by decide
 
 end Mistral.Props.C04Rev
